@@ -549,6 +549,9 @@ type c19Unknown struct {
 	Kind string `json:"kind"` // filter tag
 	Pos  string `json:"pos"`
 	Body string `json:"body"`
+	// Via: the offending template is pulled in by another one; if_exists forgives a missing file,
+	// not an unregistered name inside an existing one
+	Via string `json:"via,omitempty"` // "" | include | include_if_exists | lazy_include_if_exists | extends | import
 }
 
 func checkC19Unknown(c any, r *Rec) error {
@@ -568,8 +571,27 @@ func checkC19Unknown(c any, r *Rec) error {
 		src = files["/root.tpl"]
 		lazyOK = tmp.Pos == "filter_tag"
 	}
-	set := pongo2.NewSet("c19u", newMemLoader(map[string]string{"/p.tpl": "x"}))
-	tpl, err := set.FromString(src)
+	files := map[string]string{"/p.tpl": "x", "/u.tpl": src}
+	root := src
+	switch cs.Via {
+	case "include":
+		root = `A{% include "/u.tpl" %}Z`
+	case "include_if_exists":
+		root = `A{% include "/u.tpl" if_exists %}Z`
+	case "lazy_include_if_exists":
+		root = `A{% include lazyu if_exists %}Z`
+		lazyOK = true // compiled when executed
+	case "extends":
+		files["/u.tpl"] = "{% block b %}" + src + "{% endblock %}"
+		root = `{% extends "/u.tpl" %}`
+	case "import":
+		files["/u.tpl"] = "{% macro um() export %}" + src + "{% endmacro %}"
+		root = `{% import "/u.tpl" um %}{{ um() }}`
+	}
+	set := pongo2.NewSet("c19u", newMemLoader(files))
+	set.Globals["lazyu"] = "/u.tpl"
+	tpl, err := set.FromString(root)
+	src = root + " | " + src
 	if err != nil {
 		r.NonTrivial(src)
 		return nil
@@ -587,12 +609,17 @@ func checkC19Unknown(c any, r *Rec) error {
 
 var _ = register(&propSpec{
 	ID:   "C19.unknown",
-	Rule: "an unregistered filter name planted at each of the 19 positions (and as first / second filter of the filter tag with every body kind) and an unregistered tag name at top level and inside if / else / for / macro / block bodies (also dead ones): compilation must fail; in the filter tag at the latest execution must fail and nothing may be rendered. Every case is non-trivial.",
+	Rule: "an unregistered filter name planted at each of the 19 positions (and as first / second filter of the filter tag with every body kind) and an unregistered tag name at top level and inside if / else / for / macro / block bodies (also dead ones), in the template itself or in one it includes (also with if_exists, also lazily), extends or imports: compilation must fail; in the filter tag at the latest execution must fail and nothing may be rendered. Every case is non-trivial.",
 	Gen: func(t *rapid.T) any {
 		if drawInt(t, 0, 3, "tag") == 0 {
-			return &c19Unknown{Kind: "tag", Pos: pick(t, "tpos", []string{"top", "if", "for", "macro", "block", "else"})}
+			cs := &c19Unknown{Kind: "tag", Pos: pick(t, "tpos", []string{"top", "if", "for", "macro", "block", "else"})}
+			if cs.Pos != "block" && cs.Pos != "macro" {
+				cs.Via = pick(t, "via", []string{"", "", "include", "include_if_exists", "lazy_include_if_exists", "extends", "import"})
+			}
+			return cs
 		}
-		return &c19Unknown{Kind: "filter", Pos: pick(t, "fpos", append([]string{"filter_tag_second"}, c19Positions...)), Body: pick(t, "body", []string{"text", "var", "empty", "emptyvar", "loop"})}
+		return &c19Unknown{Kind: "filter", Pos: pick(t, "fpos", append([]string{"filter_tag_second"}, c19Positions...)), Body: pick(t, "body", []string{"text", "var", "empty", "emptyvar", "loop"}),
+			Via: pick(t, "via", []string{"", "", "include", "include_if_exists", "lazy_include_if_exists"})}
 	},
 	New:   func() any { return &c19Unknown{} },
 	Check: checkC19Unknown,
